@@ -9,6 +9,25 @@ namespace Esp.Conn
 def StartPend (s : State) : Prop := s.start = .awaitResolve ∨ s.start = .awaitSocket
 def FinPend (s : State) : Prop := s.finish = .awaitTransport ∨ s.finish = .awaitReady ∨ s.finish = .awaitHello
 
+/-- a cancellation (by the caller or by the interrupt callback) is waiting to be delivered to the task -/
+def CancelDue (t : Tk) : Prop := t.userCancel = true ∨ t.interrupted = true
+/-- why a start task stops waiting -/
+def StartDue (s : State) : Prop :=
+  (s.start = .awaitResolve ∧ (CancelDue s.startT ∨ s.startT.timedOut = true ∨ s.resolveRes ≠ .none)) ∨
+  (s.start = .awaitSocket ∧ (CancelDue s.startT ∨ s.startT.timedOut = true ∨ s.sockRes ≠ .none))
+/-- why a finish task stops waiting (no condition while the frame helper is being set up) -/
+def FinDue (s : State) : Prop :=
+  (s.finish = .awaitReady → CancelDue s.finishT ∨ s.ready ≠ .pending) ∧
+  (s.finish = .awaitHello → CancelDue s.finishT ∨ s.hello.fut ≠ .pending)
+
+theorem cancelExc_some (t : Tk) (ex : Exc) (h : cancelExc t = some ex) : CancelDue t := by
+  simp only [cancelExc] at h
+  split at h
+  · exact Or.inl (by assumption)
+  · split at h
+    · exact Or.inr (by assumption)
+    · simp at h
+
 inductive Prim : State → State → Prop
   | cleanup (s) : Prim s (cleanup s)
   | setFatal (f s) : Prim s (aSetFatal f s)
@@ -23,14 +42,14 @@ inductive Prim : State → State → Prop
   | discRespArr (s) (h : s.st ≠ .closed) : Prim s (aDiscRespArr s)
   | collect (s r) (h : s.st ≠ .closed) : Prim s (collect s r)
   -- start task
-  | startExit (s) (h : StartPend s) : Prim s (aStartExit s)
+  | startExit (s) (h : StartPend s) (hd : StartDue s) : Prim s (aStartExit s)
   | startFutQuiet (s) (h : s.st = .closed) : Prim s (aStartFutQuiet s)
   | startFail (e s) (h : s.st = .closed) (hp : StartPend s) (hf : s.startFut ≠ .pending) (hx : s.startT.exited = true)
       (ht : s.resolveTimer = false ∧ s.tcpTimer = false) : Prim s (aStartDone (.err e) s)
   | startToSocket (s) (h : s.start = .awaitResolve) : Prim s (aStartToSocket s)
   | startOk (s) (h : s.start = .awaitSocket) : Prim s (startOkPath s)
   -- finish task
-  | finExit (s) (h : FinPend s) : Prim s (aFinExit s)
+  | finExit (s) (h : FinPend s) (hd : FinDue s) : Prim s (aFinExit s)
   | finFutQuiet (s) (h : s.st = .closed) : Prim s (aFinFutQuiet s)
   | finFail (e s) (h : s.st = .closed) (hp : FinPend s) (hf : s.finishFut ≠ .pending) (hx : s.finishT.exited = true)
       (ht : s.hsTimer = false ∨ s.finish = .awaitHello)
@@ -39,13 +58,13 @@ inductive Prim : State → State → Prop
   | trCancelled (s) (h : s.finish = .awaitTransport) : Prim s (aTrCancelled s)
   | fhAttach (s) (h : s.finish = .awaitTransport) (hw : s.transportWaiter = true) (hf : s.transportFailed = false) :
       Prim s (aFhAttach s)
-  | finToReady (s) (h : s.finish = .awaitTransport) (hf : s.fhSet = true) : Prim s (aFinToReady s)
+  | finToReady (s) (h : s.finish = .awaitTransport) (hf : s.fhSet = true) (ht : s.hsTimer = true) : Prim s (aFinToReady s)
   | hsEnter (s) (h : s.finish = .awaitTransport ∨ s.finish = .awaitReady) (hn : s.st ≠ .closed)
-      (hf : s.fhSet = true ∨ s.finish = .awaitReady) :
+      (hf : s.fhSet = true ∨ s.finish = .awaitReady) (hr : s.ready = .ok) :
       Prim s (aHsEnter s)
   | helloStart (s) (h : s.finish = .awaitTransport ∨ s.finish = .awaitReady) (hs : s.st = .hsDone) (hf : s.fhSet = true)
       (ht : s.hsTimer = false) : Prim s (aHelloStart s)
-  | helloFinally (s) (h : s.finish = .awaitHello) : Prim s (aHelloFinally s)
+  | helloFinally (s) (h : s.finish = .awaitHello) (hd : CancelDue s.finishT ∨ s.hello.fut ≠ .pending) : Prim s (aHelloFinally s)
   | helloOk (s) (h : s.finish = .awaitHello)
       (hh : s.hello.timer = false ∧ s.hello.registered = false ∧ s.hello.inWaiters = false) : Prim s (helloOkPath s)
   -- disconnect
@@ -56,10 +75,10 @@ inductive Prim : State → State → Prop
   | discReqStart (s) (h : hsComplete s = true) (hd : s.disc = .idle ∨ s.disc = .awaitFinish)
       (hw : s.discWaitTimer = false ∨ s.disc = .idle) :
       Prim s (aDiscReqStart s)
-  | discWaitOver (s) (h : s.disc = .awaitFinish) : Prim s (aDiscWaitOver s)
+  | discWaitOver (s) (h : s.disc = .awaitFinish) (hw : s.discWaiterDone = true) : Prim s (aDiscWaitOver s)
   | discCancelledW (s) (h : s.disc = .awaitFinish) : Prim s (aDiscCancelledW s)
   | discCancelledR (s) (h : s.disc = .awaitResp) : Prim s (aDiscCancelledR s)
-  | discReqFinally (s) (h : s.disc = .awaitResp) : Prim s (aDiscReqFinally s)
+  | discReqFinally (s) (h : s.disc = .awaitResp) (hf : s.discReq.fut ≠ .pending) : Prim s (aDiscReqFinally s)
   -- events
   | refused (s) : Prim s (aRefused s)
   | startBegin (s) (h : s.st = .init) (hi : s.start = .idle) : Prim s (aStartBegin s)
@@ -201,10 +220,10 @@ theorem reach_onLost (s : State) (h : s.lostPending = true) : Reach s (onLost s)
   unfold onLost
   exact (Reach.snoc (.one (.lostRun s h)) (.readyFail _ _)).trans (reach_reportFatal _ _)
 
-theorem reach_failStart (s : State) (ex : Exc) (h : StartPend s) : Reach s (failStart s ex) := by
+theorem reach_failStart (s : State) (ex : Exc) (h : StartPend s) (hd : StartDue s) : Reach s (failStart s ex) := by
   unfold failStart
   dsimp only
-  refine .snoc (.snoc (.snoc (.one (.startExit s h)) (.cleanup _)) (.startFutQuiet _ rfl)) (.startFail _ _ ?_ ?_ ?_ ?_ ?_)
+  refine .snoc (.snoc (.snoc (.one (.startExit s h hd)) (.cleanup _)) (.startFutQuiet _ rfl)) (.startFail _ _ ?_ ?_ ?_ ?_ ?_)
   rotate_left 4
   · simp [aStartFutQuiet, cleanup, aStartExit]
   · simp [aStartFutQuiet, cleanup]
@@ -214,10 +233,11 @@ theorem reach_failStart (s : State) (ex : Exc) (h : StartPend s) : Reach s (fail
   · simp [aStartFutQuiet, cleanup, aStartExit]
 
 theorem reach_failFinish (s : State) (ex : Exc) (h : FinPend s)
-    (hh : s.finish = .awaitHello → s.hello.timer = false ∧ s.hello.registered = false) : Reach s (failFinish s ex) := by
+    (hh : s.finish = .awaitHello → s.hello.timer = false ∧ s.hello.registered = false) (hd : FinDue s) :
+    Reach s (failFinish s ex) := by
   unfold failFinish
   dsimp only
-  refine .snoc (.snoc (.snoc (.one (.finExit s h)) (.cleanup _)) (.finFutQuiet _ rfl)) (.finFail _ _ ?_ ?_ ?_ ?_ ?_ ?_)
+  refine .snoc (.snoc (.snoc (.one (.finExit s h hd)) (.cleanup _)) (.finFutQuiet _ rfl)) (.finFail _ _ ?_ ?_ ?_ ?_ ?_ ?_)
   · simp only [aFinFutQuiet]; split <;> simp [cleanup]
   · simp only [aFinFutQuiet]; split <;> simpa [FinPend, cleanup, aFinExit] using h
   · simp only [aFinFutQuiet]; split <;> simp_all [cleanup, aFinExit]
@@ -239,37 +259,40 @@ theorem reach_stepStart (s : State) : Reach s (stepStart s) := by
   · rename_i hs
     have hp : StartPend s := Or.inl hs
     split
-    · exact reach_failStart s _ hp
+    · rename_i ex heq; exact reach_failStart s _ hp (Or.inl ⟨hs, Or.inl (cancelExc_some _ _ heq)⟩)
     · split
-      · exact reach_failStart s _ hp
+      · rename_i ht; exact reach_failStart s _ hp (Or.inl ⟨hs, Or.inr (Or.inl ht)⟩)
       · split
         · exact .refl s
-        · exact reach_failStart s _ hp
+        · rename_i hr; exact reach_failStart s _ hp (Or.inl ⟨hs, Or.inr (Or.inr (by simp [hr]))⟩)
         · exact .one (.startToSocket s hs)
   · rename_i hs
     have hp : StartPend s := Or.inr hs
     split
-    · exact reach_failStart s _ hp
+    · rename_i ex heq; exact reach_failStart s _ hp (Or.inr ⟨hs, Or.inl (cancelExc_some _ _ heq)⟩)
     · split
-      · exact reach_failStart s _ hp
+      · rename_i ht; exact reach_failStart s _ hp (Or.inr ⟨hs, Or.inr (Or.inl ht)⟩)
       · split
         · exact .refl s
-        · exact reach_failStart s _ hp
+        · rename_i hr; exact reach_failStart s _ hp (Or.inr ⟨hs, Or.inr (Or.inr (by simp [hr]))⟩)
         · exact .one (.startOk s hs)
   · exact .refl s
 
 theorem reach_sendHello (s : State) (hp : s.finish = .awaitTransport ∨ s.finish = .awaitReady) (hst : s.st = .hsDone)
-    (ht : s.hsTimer = false) : Reach s (sendHello s) := by
+    (ht : s.hsTimer = false) (hr : s.ready = .ok) : Reach s (sendHello s) := by
   unfold sendHello
   have h := reach_send s
   split
   · rename_i s1 ex heq
     rw [heq] at h
-    have hfin : s1.finish = s.finish := by
-      rcases send_some_eq _ _ _ heq with ⟨h1, _⟩ | ⟨h1, _⟩ | ⟨h1, _⟩ <;> subst h1 <;> simp [reportFatal, cleanup, aSetFatal]
-    refine h.trans (reach_failFinish s1 ex ?_ ?_)
-    · rcases hp with hp | hp <;> simp [FinPend, hfin, hp]
-    · intro hc; rw [hfin] at hc; rcases hp with hp | hp <;> simp [hp] at hc
+    have hfin : s1.finish = s.finish ∧ s1.ready = .ok := by
+      rcases send_some_eq _ _ _ heq with ⟨h1, _⟩ | ⟨h1, _⟩ | ⟨h1, _⟩ <;> subst h1 <;>
+        simp [reportFatal, cleanup, aSetFatal, hr]
+    refine h.trans (reach_failFinish s1 ex ?_ ?_ ?_)
+    · rcases hp with hp | hp <;> simp [FinPend, hfin.1, hp]
+    · intro hc; rw [hfin.1] at hc; rcases hp with hp | hp <;> simp [hp] at hc
+    · refine ⟨fun _ => Or.inr (by simp [hfin.2]), fun hc => ?_⟩
+      rw [hfin.1] at hc; rcases hp with hp | hp <;> simp [hp] at hc
   · rename_i s1 heq
     rw [heq] at h
     obtain ⟨h1, _, h3, _⟩ := send_none_eq _ _ heq
@@ -277,15 +300,18 @@ theorem reach_sendHello (s : State) (hp : s.finish = .awaitTransport ∨ s.finis
     exact .snoc h (.helloStart _ hp hst h3 ht)
 
 theorem reach_afterReady (s : State) (hp : s.finish = .awaitTransport ∨ s.finish = .awaitReady)
-    (hf : s.fhSet = true ∨ s.finish = .awaitReady) :
+    (hf : s.fhSet = true ∨ s.finish = .awaitReady) (hr : s.ready = .ok) :
     Reach s (afterReady s) := by
   unfold afterReady
   split
-  · refine reach_failFinish s _ ?_ ?_
+  · refine reach_failFinish s _ ?_ ?_ ?_
     · rcases hp with hp | hp <;> simp [FinPend, hp]
     · intro hc; rcases hp with hp | hp <;> simp [hp] at hc
+    · refine ⟨fun _ => Or.inr (by simp [hr]), fun hc => ?_⟩
+      rcases hp with hp | hp <;> simp [hp] at hc
   · rename_i hn
-    exact (Reach.one (.hsEnter s hp hn hf)).trans (reach_sendHello _ (by simpa [aHsEnter] using hp) rfl rfl)
+    exact (Reach.one (.hsEnter s hp hn hf hr)).trans
+      (reach_sendHello _ (by simpa [aHsEnter] using hp) rfl rfl (by simpa [aHsEnter] using hr))
 
 theorem reach_stepFinish (s : State) : Reach s (stepFinish s) := by
   unfold stepFinish
@@ -293,47 +319,60 @@ theorem reach_stepFinish (s : State) : Reach s (stepFinish s) := by
   · rename_i hs
     have hp : FinPend s := Or.inl hs
     have hh : s.finish = .awaitHello → s.hello.timer = false ∧ s.hello.registered = false := by intro hc; simp [hs] at hc
+    have hd : FinDue s := ⟨fun hc => by simp [hs] at hc, fun hc => by simp [hs] at hc⟩
     split
-    · refine (Reach.one (.trCancelled s hs)).trans (reach_failFinish _ _ ?_ ?_)
-      · left; simp only [aTrCancelled]; split <;> simpa using hs
-      · intro hc; exfalso; simp only [aTrCancelled] at hc; split at hc <;> simp [hs] at hc
+    · have hfin : (aTrCancelled s).finish = .awaitTransport := by simp only [aTrCancelled]; split <;> simpa using hs
+      refine (Reach.one (.trCancelled s hs)).trans (reach_failFinish _ _ (Or.inl hfin) ?_ ?_)
+      · intro hc; simp [hfin] at hc
+      · exact ⟨fun hc => by simp [hfin] at hc, fun hc => by simp [hfin] at hc⟩
     · split
       · exact .refl s
       · rename_i hw
         split
-        · exact reach_failFinish s _ hp hh
+        · exact reach_failFinish s _ hp hh hd
         · rename_i hf
           have h1 : Reach s (aFhAttach s) := .one (.fhAttach s hs (by simpa using hw) (by simpa using hf))
+          have hfin : (aFhAttach s).finish = .awaitTransport := by simpa [aFhAttach] using hs
           have hh' : (aFhAttach s).finish = .awaitHello → (aFhAttach s).hello.timer = false ∧ (aFhAttach s).hello.registered = false := by
-            intro hc; simp [aFhAttach, hs] at hc
+            intro hc; simp [hfin] at hc
+          have hd' : FinDue (aFhAttach s) := ⟨fun hc => by simp [hfin] at hc, fun hc => by simp [hfin] at hc⟩
           split
-          · exact h1.trans (reach_afterReady _ (Or.inl (by simpa [aFhAttach] using hs)) (Or.inl rfl))
-          · exact h1.trans (reach_failFinish _ _ (Or.inl (by simpa [aFhAttach] using hs)) hh')
-          · exact .snoc h1 (.finToReady _ (by simpa [aFhAttach] using hs) rfl)
+          · rename_i hrd
+            exact h1.trans (reach_afterReady _ (Or.inl hfin) (Or.inl rfl) (by simpa [aFhAttach] using hrd))
+          · exact h1.trans (reach_failFinish _ _ (Or.inl hfin) hh' hd')
+          · exact .snoc h1 (.finToReady _ hfin rfl rfl)
   · rename_i hs
     have hp : FinPend s := Or.inr (Or.inl hs)
     have hh : s.finish = .awaitHello → s.hello.timer = false ∧ s.hello.registered = false := by intro hc; simp [hs] at hc
+    have hd2 : s.finish = .awaitHello → CancelDue s.finishT ∨ s.hello.fut ≠ .pending := by intro hc; simp [hs] at hc
     split
-    · exact reach_failFinish s _ hp hh
+    · rename_i ex heq; exact reach_failFinish s _ hp hh ⟨fun _ => Or.inl (cancelExc_some _ _ heq), hd2⟩
     · split
-      · exact reach_afterReady s (Or.inr hs) (Or.inr hs)
-      · exact reach_failFinish s _ hp hh
-      · exact reach_failFinish s _ hp hh
+      · rename_i hrd; exact reach_afterReady s (Or.inr hs) (Or.inr hs) hrd
+      · rename_i hrd; exact reach_failFinish s _ hp hh ⟨fun _ => Or.inr (by simp [hrd]), hd2⟩
+      · rename_i e hrd; exact reach_failFinish s _ hp hh ⟨fun _ => Or.inr (by simp [hrd]), hd2⟩
       · exact .refl s
   · rename_i hs
-    have h1 : Reach s (aHelloFinally s) := .one (.helloFinally s hs)
-    have hp1 : FinPend (aHelloFinally s) := Or.inr (Or.inr (by simpa [aHelloFinally] using hs))
+    have hfin : (aHelloFinally s).finish = .awaitHello := by simpa [aHelloFinally] using hs
+    have hp1 : FinPend (aHelloFinally s) := Or.inr (Or.inr hfin)
     have hh1 : (aHelloFinally s).finish = .awaitHello →
         (aHelloFinally s).hello.timer = false ∧ (aHelloFinally s).hello.registered = false := by
       intro _; simp [aHelloFinally, finishReq]
+    have key : (CancelDue s.finishT ∨ s.hello.fut ≠ .pending) →
+        ∀ ex, Reach s (failFinish (aHelloFinally s) ex) := by
+      intro hd ex
+      refine (Reach.one (.helloFinally s hs hd)).trans (reach_failFinish _ _ hp1 hh1 ⟨fun hc => by simp [hfin] at hc, fun _ => ?_⟩)
+      simpa [aHelloFinally, finishReq] using hd
     split
-    · exact h1.trans (reach_failFinish _ _ hp1 hh1)
+    · rename_i ex heq; exact key (Or.inl (cancelExc_some _ _ heq)) _
     · split
-      · split
-        · exact h1.trans (reach_failFinish _ _ hp1 hh1)
-        · exact .snoc h1 (.helloOk _ (by simpa [aHelloFinally] using hs) (by simp [aHelloFinally, finishReq]))
-      · exact h1.trans (reach_failFinish _ _ hp1 hh1)
-      · exact h1.trans (reach_failFinish _ _ hp1 hh1)
+      · rename_i hfut
+        have hd : CancelDue s.finishT ∨ s.hello.fut ≠ .pending := Or.inr (by simp [hfut])
+        split
+        · exact key hd _
+        · exact .snoc (.one (.helloFinally s hs hd)) (.helloOk _ hfin (by simp [aHelloFinally, finishReq]))
+      · rename_i hfut; exact key (Or.inr (by simp [hfut])) _
+      · rename_i e hfut; exact key (Or.inr (by simp [hfut])) _
       · exact .refl s
   · exact .refl s
 
@@ -387,16 +426,19 @@ theorem reach_stepDisc (s : State) : Reach s (stepDisc s) := by
     · exact .one (.discCancelledW s hs)
     · split
       · split
-        · refine (Reach.snoc (.one (.setFatal _ s)) (.discWaitOver _ (by simpa [aSetFatal] using hs))).trans
+        · rename_i hwd _
+          refine (Reach.snoc (.one (.setFatal _ s)) (.discWaitOver _ (by simpa [aSetFatal] using hs) (by simpa [aSetFatal] using hwd))).trans
             (reach_discSend _ (Or.inr (by simpa [aDiscWaitOver, aSetFatal] using hs)) (Or.inl rfl))
-        · exact (Reach.one (.discWaitOver s hs)).trans (reach_discSend _ (Or.inr (by simpa [aDiscWaitOver] using hs)) (Or.inl rfl))
+        · rename_i hwd _
+          exact (Reach.one (.discWaitOver s hs hwd)).trans (reach_discSend _ (Or.inr (by simpa [aDiscWaitOver] using hs)) (Or.inl rfl))
       · exact .refl s
   · rename_i hs
     split
     · exact .one (.discCancelledR s hs)
     · split
       · exact .refl s
-      · refine .snoc (.snoc (.one (.discReqFinally s hs)) (.cleanup _)) (.discDone _ rfl ?_ ?_)
+      · rename_i hfut
+        refine .snoc (.snoc (.one (.discReqFinally s hs (by intro hc; exact hfut hc))) (.cleanup _)) (.discDone _ rfl ?_ ?_)
         · intro _; simp [cleanup, aDiscReqFinally, failWaiter, finishReq]
         · right; right; simpa [cleanup, aDiscReqFinally] using hs
   · exact .refl s
